@@ -16,9 +16,12 @@ def fields(names):
         [{'name': n, 'type': 'IntegerField', 'attrs': {'null': True}, 'related': None} for n in names]
 
 
-def spec(names, with_other):
+def spec(names, with_other, tag=False):
     apps = [{'id': 'vapp', 'models': [{'name': 'Alpha', 'table': 'vapp_alpha', 'fields': fields(names),
                                        'unique_together': [], 'index_together': [], 'indexes': [], 'constraints': []}]}]
+    if tag:
+        apps[0]['models'].append({'name': 'Tag', 'table': 'vapp_tag', 'fields': fields(['t']),
+                                  'unique_together': [], 'index_together': [], 'indexes': [], 'constraints': []})
     if with_other:
         apps.append({'id': 'wapp', 'models': [{'name': 'Wal', 'table': 'wapp_wal', 'fields': fields(with_other),
                                                'unique_together': [], 'index_together': [], 'indexes': [],
@@ -38,9 +41,12 @@ class Case(object):
         from django.db import migrations, models
         init_fields = [('id', models.AutoField(primary_key=True, serialize=False, auto_created=True, verbose_name='ID'))] + \
             [(n, models.IntegerField(null=True)) for n in ['base'] + self.fnames]
-        Initial = type('Migration', (migrations.Migration,), {
-            'initial': True,
-            'operations': [migrations.CreateModel(name='Alpha', fields=init_fields, options={'db_table': 'vapp_alpha'})]})
+        ops = [migrations.CreateModel(name='Alpha', fields=init_fields, options={'db_table': 'vapp_alpha'})]
+        if getattr(self, 'tag', False):
+            ops.append(migrations.CreateModel(name='Tag', fields=[
+                ('id', models.AutoField(primary_key=True, serialize=False, auto_created=True, verbose_name='ID')),
+                ('t', models.IntegerField(null=True))], options={'db_table': 'vapp_tag'}))
+        Initial = type('Migration', (migrations.Migration,), {'initial': True, 'operations': ops})
         out = [Initial('0001_initial', 'vapp')]
         prev = '0001_initial'
         for j, g in enumerate(self.gnames):
@@ -68,12 +74,12 @@ class Case(object):
         return ev
 
 
-def run_once(case, vapp_fields, evolutions, migrations, other_fields=None, other_evos=None, fail_first=None):
+def run_once(case, vapp_fields, evolutions, migrations, other_fields=None, other_evos=None, fail_first=None, tag=False):
     from django_evolution.compat.apps import get_apps
     from django_evolution.evolve import EvolveAppTask, Evolver
     from django_evolution.utils.apps import get_app_label
     evorig._hygiene()
-    evorig.install_models(spec(vapp_fields, other_fields))
+    evorig.install_models(spec(vapp_fields, other_fields, tag=tag))
     evorig.set_evolutions('wapp', other_evos or [])
     # the evolutions are discovered the normal way (modules under vapp.evolutions); only the
     # migrations are handed in, since they exist in memory only
@@ -116,6 +122,7 @@ def run(ctx):
                 'earlier evolution, database already on migrations}, alone and next to an evolution-only app; '
                 'non-trivial = every case (exhaustive over these parameters in both tiers)')
     relabelled_app_probe(ctx)
+    late_model_cases(ctx)
     combos = [(k, m, s, o) for k in (0, 1, 2) for m in (1, 2, 3) for s in range(0, m + 1) for o in (False, True)]
     ctx.rng.shuffle(combos)
     if quick:
@@ -272,6 +279,51 @@ def run(ctx):
             if not res2['ok'] or res2['required'] or w2:
                 ctx.fail(None, 'a further run is not a no-op: ok=%s required=%s writes=%d'
                          % (res2['ok'], res2['required'], len(w2)), rep)
+
+
+def late_model_cases(ctx):
+    """a model that enters the app in the release that hands it over: its table is not in the database yet, and the
+    migration that would create it is among those named as already applied - the hand-over run must create it"""
+    for (k, m, s, start_i) in ((1, 2, 1, 0), (1, 2, 2, 1), (0, 2, 1, 0), (1, 3, 1, 1)):
+        if ctx.time_left() < 25:
+            return
+        case = Case(k, m, s, False)
+        case.tag = True
+        names = case.names()
+        final_fields = ['base'] + case.fnames + case.gnames
+        rep = {'scenario': 'model added in the hand-over release', 'k': k, 'm': m, 's': s, 'start': 'evo%d' % start_i}
+        evorig.fresh_databases()
+        evorig.clear_evolutions()
+        r0 = run_once(case, ['base'], None, None)
+        ok = r0['ok']
+        if ok and start_i > 0:
+            r1 = run_once(case, ['base'] + case.evo_fields[:start_i], case.evolutions(upto=start_i), None)
+            ok = r1['ok']
+        if not ok:
+            ctx.count('late_model:start_failed')
+            continue
+        res = run_once(case, final_fields, case.evolutions(), case.migrations(), tag=True)
+        ctx.case(rep, nontrivial=True, sample_cap=2)
+        ctx.count('late_model:%s' % ('ok' if res['ok'] else 'fails'))
+        if not res['ok']:
+            if s == m and 'was not found (required by "evolution:vapp:to_migrations")' in res['error']:
+                ctx.fail('F45', 'the hand-over run fails: %s' % res['error'], rep)
+            else:
+                ctx.fail(None, 'the hand-over run with a new model fails: %s' % res['error'], rep)
+            continue
+        schema = dbrig.abs_schema()
+        cols = sorted(schema.get('vapp_tag', {}).get('columns', {}))
+        if cols != ['id', 't']:
+            ctx.fail(None, 'the model added in the hand-over release has columns %s after the run, expected [id, t]: '
+                     'nobody created its table' % cols, rep)
+        rec = recorder()
+        if sorted(set(rec)) != sorted(names):
+            ctx.fail(None, 'recorded migrations %s, expected the whole chain %s' % (rec, names), rep)
+        res2 = run_once(case, final_fields, case.evolutions(), case.migrations(), tag=True)
+        w2 = [w for w in res2['trace'].write_statements()]
+        if not res2['ok'] or res2['required'] or w2:
+            ctx.fail(None, 'a further run after the hand-over with a new model is not a no-op: ok=%s required=%s '
+                     'writes=%d' % (res2['ok'], res2['required'], len(w2)), rep)
 
 
 def relabelled_app_probe(ctx):
